@@ -86,7 +86,7 @@ Definition scan (p:nat) (region:list byte) : fscan := fold_left (fstep p) (chunk
 Definition decode (p:nat) (region:list byte) : option (list line) :=
   let s := scan p region in
   match f_st s with
-  | FNormal _ => if (length region mod (p + 2) =? 0) && (f_good s =? f_idx s) then Some (rev (f_lines s)) else None
+  | FNormal _ => if (length region mod (p + 2) =? 0) && (f_good s =? f_idx s) then Some (frev (f_lines s)) else None
   | FStart => match region with [] => Some [] | _ => None end
   | _ => None
   end.
@@ -98,10 +98,10 @@ Definition recover (p:nat) (region:list byte) : option (list line * N) :=
   let s := scan p region in
   match f_st s with
   | FBad => None
-  | _ => Some (rev (f_lines s), N.of_nat (f_good s * (p + 2)))
+  | _ => Some (frev (f_lines s), N.of_nat (f_good s * (p + 2)))
   end.
 
-Definition sections (p:nat) (region:list byte) : list (N * N) := rev (f_secs (scan p region)).
+Definition sections (p:nat) (region:list byte) : list (N * N) := frev (f_secs (scan p region)).
 Definition last_full (p:nat) (region:list byte) : option N := full_opt (f_st (scan p region)).
 
 (* ---- index file ---- *)
